@@ -185,6 +185,7 @@ class RequestHandler(BaseProtocol, Generic[_Request]):
         "_message_tail",
         "_read_bufsize",
         "_handler_waiter",
+        "_closed_waiter",
         "_waiter",
         "_task_handler",
         "_payload_parser",
@@ -270,6 +271,7 @@ class RequestHandler(BaseProtocol, Generic[_Request]):
 
         self._waiter: asyncio.Future[None] | None = None
         self._handler_waiter: asyncio.Future[None] | None = None
+        self._closed_waiter: asyncio.Future[None] | None = None
         self._task_handler: asyncio.Task[None] | None = None
         self._payload_parser: Any = None
 
@@ -396,7 +398,18 @@ class RequestHandler(BaseProtocol, Generic[_Request]):
             # do not wait for the peer to read what is still buffered.
             self.transport.abort()
 
+        transport = self.transport
         self.force_close()
+
+        if transport is not None and transport.get_write_buffer_size() > 0:
+            # A complete response is still being flushed to a slow peer and
+            # close() waits for that: allow for it within the timeout only.
+            waiter = self._closed_waiter = self._loop.create_future()
+            try:
+                await asyncio.wait((waiter,), timeout=timeout)
+            finally:
+                if not waiter.done():
+                    transport.abort()
 
     def connection_made(self, transport: asyncio.BaseTransport) -> None:
         super().connection_made(transport)
@@ -425,6 +438,8 @@ class RequestHandler(BaseProtocol, Generic[_Request]):
 
         self.force_close()
         super().connection_lost(exc)
+        if self._closed_waiter is not None and not self._closed_waiter.done():
+            self._closed_waiter.set_result(None)
         self._manager = None
         self._request_factory = None
         self._request_handler = None
